@@ -288,13 +288,40 @@ Proof.
   split; [apply HL|apply cand_alts; exact Hin].
 Qed.
 
+Lemma open_segs_err c : forall segs acc e r sl tl e', open_segs c segs acc e = (r, sl, tl, e') -> r = ROk \/ res_class r = RErrOther.
+Proof.
+  induction segs as [|si segs IH]; intros acc e r sl tl e'; cbn [open_segs].
+  - intros E; inversion E; auto.
+  - destruct (negb (si_codec si =? c_codec c)); [intros E; inversion E; auto|].
+    destruct (negb (si_sealed si)).
+    + destruct segs; [|intros E; inversion E; auto].
+      destruct (match seg_recover si e with None => seg_create si e | Some x => (x, e) end) as [sw e1].
+      destruct sw as [sw|]; [|intros E; inversion E; auto].
+      destruct (0 <? _); intros E; inversion E; auto.
+    + destruct (lookup _ _) as [f|]; [|intros E; inversion E; auto].
+      destruct (cur_end f =? 0); [intros E; inversion E; auto|]. apply IH.
+Qed.
+
+Lemma open_err_not_ok c e x e' : open_wal c e = (OErr x, e') -> x <> ROk.
+Proof.
+  unfold open_wal. destruct (_ && _); [intros E; inversion E; discriminate|].
+  destruct (if dk_inited (e_disk e) then (true, e) else io AInitMeta e) as [ok0 e0].
+  destruct (negb ok0); [intros E; inversion E; discriminate|].
+  destruct (open_segs c _ [] e0) as [[[r segs] tail] e1] eqn:Eo.
+  destruct (open_segs_err c _ _ _ _ _ _ _ Eo) as [-> | Hr].
+  - destruct tail as [tw|]; [intros E; inversion E|].
+    destruct (io _ e1) as [ok1 e2]. destruct (negb ok1); [intros E; inversion E; discriminate|].
+    destruct (seg_create _ e2) as [sw e3]. destruct sw; intros E; inversion E; discriminate.
+  - destruct r; cbn in Hr; try discriminate; intros E; inversion E; discriminate.
+Qed.
+
 Lemma reopen_ok c nb d alts defer acts f m :
   cfg_ok c -> nb + 1 < two64 -> RD c nb d alts defer ->
   let e := {| e_acts := acts; e_disk := adopt_disk d; e_fault := f; e_m := m |} in
   exists res e', open_wal c e = (res, e') /\
     ((exists w', res = OOk w' /\ LInv c (nb + 1) w' (sh (e_disk e')) /\ no_pend (e_disk e') /\
-                 sp_of (sh (e_disk e')) = sp_of (ad d)) \/
-     (f <> None /\ (exists x, res = OErr x) /\ e_fault e' = None /\ RD c (nb + 1) (e_disk e') alts defer)).
+                 sp_of (sh (e_disk e')) = sp_of (ad d) /\ (f = None -> e_fault e' = None)) \/
+     (f <> None /\ (exists x, res = OErr x /\ x <> ROk) /\ e_fault e' = None /\ RD c (nb + 1) (e_disk e') alts defer)).
 Proof.
   intros Hc Hnb (HD & Hcand) e.
   set (ec := {| e_acts := acts; e_disk := ad d; e_fault := None; e_m := m |}).
@@ -310,8 +337,9 @@ Proof.
     destruct (ext_final _ _ _ Hext) as (_ & _ & Hs). exact Hs. }
   destruct f as [k|].
   - destruct (open_wal_lock c e ec res e' (OOk wc) ec' (conj Hrel eq_refl) Ho Hoc) as [(-> & HR')|(F1 & F2 & dm & F3 & F4)].
-    + left. exists wc. split; [reflexivity|]. apply Hsame. apply HR'.
-    + right. split; [discriminate|]. split; [exact F2|]. split; [exact F1|].
+    + left. exists wc. split; [reflexivity|]. destruct (Hsame _ (proj1 HR')) as (X1 & X2 & X3).
+      split; [exact X1|]. split; [exact X2|]. split; [exact X3|]. discriminate.
+    + right. split; [discriminate|]. split; [destruct F2 as (x & ->); exists x; split; [reflexivity|eapply open_err_not_ok; exact Ho]|]. split; [exact F1|].
       destruct (ext_pfx _ _ _ _ Hext F4) as (HDm & HNm & Hsm).
       assert (Hn' : no_pend (e_disk e')) by (eapply drel_nopend; eauto).
       pose proof (drel_NoDup _ _ _ F3) as ND'.
@@ -320,5 +348,6 @@ Proof.
       rewrite sp_of_dirfix, Hsm. exact Hcand.
   - (* no fault armed: run the simulation the other way round *)
     destruct (open_wal_lock c ec e (OOk wc) ec' res e' (conj (drel_sym _ _ Hrel) eq_refl) Hoc Ho) as [(<- & HR')|(_ & (x & F2) & _)]; [|discriminate].
-    left. exists wc. split; [reflexivity|]. apply Hsame. apply drel_sym. apply HR'.
+    left. exists wc. split; [reflexivity|]. destruct (Hsame _ (drel_sym _ _ (proj1 HR'))) as (X1 & X2 & X3).
+    split; [exact X1|]. split; [exact X2|]. split; [exact X3|]. intros _. apply HR'.
 Qed.
